@@ -37,7 +37,7 @@ def dependentLines (v : Ver) : RT → List String
   | .E => ["paths", "sets"]
   | .G => ["paths"]
   | .O => ["paths", "sets"]
-  | .U => ["sets"]
+  | .U => ["sets", "paths"]
   | .unk => ["sets", "paths"]
   | .C | .F | .P => []
 
